@@ -234,9 +234,12 @@ def run(tier, work):
     print("RUN %d scenarios in %.1fs" % (len(exs), time.time() - t1))
     ncrash = 0
     for ex, sigs, raw in vlib.confirmed_crashes(exe, conf, scen, exs, work):
+        hh = hists[int(ex["id"][1:])]
         for sig in sigs:
             ncrash += 1
-            verdict.add(sig, scen[int(ex["id"][1:])][1], "driver failure while re-loading programs", raw=raw)
+            # (a binary linked against a changed layout of the inherited program - known finding C17-F1 - can also crash)
+            sig = dict(sig, crash=True, saveB=hh["saveB"], g_changed=any(a_.get("f") == "G" for a_ in hh["h"]))
+            verdict.add(sig, [json.dumps(hh)] + scen[int(ex["id"][1:])][1], "driver failure while re-loading programs", raw=raw)
     projs = [project(ex["events"], ex["id"], hists[int(ex["id"][1:])]["saveB"]) for ex in exs]
     allh = list(hists)
     # ---- run: segment mode (own mudlib and one driver process per boot)
